@@ -107,6 +107,32 @@ def impl(case):
 
 
 def normalise(out):
+    """WHICH new variable names which hoisted subexpression (the order in which the mapper asks for names)
+    is not part of the property: the new variables are renamed by first occurrence in the result expression
+    and the assignments sorted accordingly, on both sides of the comparison"""
+    if isinstance(out, dict) and "assigns" in out and "expr" in out:
+        new = [a[0] for a in out["assigns"]]
+        order = []
+
+        def occ(j):
+            if isinstance(j, list):
+                if len(j) == 2 and j[0] == "v" and j[1] in new and j[1] not in order:
+                    order.append(j[1])
+                for x in j:
+                    occ(x)
+        occ(out["expr"])
+        for a in out["assigns"]:
+            occ(a[1])
+        order += [n for n in new if n not in order]
+        ren = {n: "#%d" % k for k, n in enumerate(order)}
+
+        def rn(j):
+            if isinstance(j, list):
+                if len(j) == 2 and j[0] == "v" and j[1] in ren:
+                    return ["v", ren[j[1]]]
+                return [rn(x) for x in j]
+            return j
+        return {"expr": rn(out["expr"]), "assigns": sorted([ren[a[0]], rn(a[1])] for a in out["assigns"])}
     if isinstance(out, dict):
         return {k: v for k, v in out.items() if k != "n_new"}
     return out
